@@ -30,7 +30,7 @@ pub enum Case {
     Explicit { delays: String, steps: Vec<Step> },
 }
 
-const POINTS: [&str; 6] = ["go_before_lock", "go_after_search", "go_after_bestmove", "go_after_latch", "newgame_after_reset", "stop_before_wait"];
+const POINTS: [&str; 7] = ["go_after_spawn", "go_before_lock", "go_after_search", "go_after_bestmove", "go_after_latch", "newgame_after_reset", "stop_before_wait"];
 
 fn from_tape(data: &[u16]) -> (String, Vec<Step>) {
     let mut t = Tape::new(data);
